@@ -333,10 +333,34 @@ fn known_regression(ctx: &Ctx) {
 	}
 }
 
+/// Runs a case on a helper thread; `None` if it did not return within the limit. The limit is
+/// three orders of magnitude above the time a case takes (milliseconds), so that only a call
+/// that never returns can hit it.
+fn run_case_with_limit(case: &WalCase, dir: &Path, secs: u64) -> Option<CaseResult> {
+	let (tx, rx) = std::sync::mpsc::channel();
+	let c = case.clone();
+	let d = dir.to_path_buf();
+	std::thread::Builder::new()
+		.stack_size(16 << 20)
+		.spawn(move || {
+			crate::runner::install_panic_hook();
+			let _ = tx.send(guarded(|| run_case(&c, &d)));
+		})
+		.ok()?;
+	rx.recv_timeout(std::time::Duration::from_secs(secs)).ok()
+}
+
 fn run(ctx: &Ctx) {
 	known_regression(ctx);
 	let n = scaled(ctx, 12_000, 300_000);
-	ctx.run_prop_shrink("damage", n, 500, wal_case(), run_case);
+	ctx.run_prop_shrink("damage", n, 500, wal_case(), |case, dir| match run_case_with_limit(case, dir, 120) {
+		Some(r) => r,
+		None => ctx.abort_with_failure(
+			"damage",
+			case,
+			&Failure::new("hang-at-open", "opening the damaged database (or the first operations on it) did not return within 120 s; a case normally takes milliseconds"),
+		),
+	});
 }
 
 fn replay(ctx: &Ctx, path: &Path) -> Result<(), Failure> {
